@@ -15,11 +15,13 @@ PROP = {'tables': ['C14'], 'n_quick': 40,
              "uncompressed ECDH/blinding keys are outside the model (the nonce is the key's compressed encoding)"],
  'assumes': []}
 
-TEXT = {'text': 'Kernel-checked theorems: PartiallySignedTransaction::locktime equals BIP370 (transcribed from the BIP) and never panics, for any number of inputs '
-         'and any requirements, with the arm order of its final match re-read from the source on every run (C08_locktime_spec, C08_locktime_total; class F6 '
-         'refuted); extract_tx(from_tx(tx)) = tx for well-formed transactions (C08_rt; classes F8a, F8b refuted); extraction is the field-wise function with '
-         'the BIP370 lock time (C08_extract_reflects); the unique-id pre-image is a function of an explicit field list, hence invariant under every other '
-         'field update (C08_uid_depends, C08_uid_invariant; F7 refuted). Model and crate are run on the same PSETs and transactions on every check.',
+TEXT = {'text': 'Kernel-checked theorems: PartiallySignedTransaction::locktime equals BIP370 (transcribed from the BIP) for every PSET and never panics, for any number '
+         'of inputs and any requirements, with the arm order of its final match re-read from the source on every run (C08_locktime_spec, C08_locktime_total; '
+         'unconditional after the F6 repair); extract_tx(from_tx(tx)) = tx for well-formed transactions incl. coinbase-style inputs (C08_rt; only the documented '
+         'class F8b, nonce of an unblinded output, is excluded and refuted by a witness); extraction is the field-wise function with the BIP370 lock time '
+         '(C08_extract_reflects); the unique-id pre-image is a function of an explicit field list that contains none of the fields the property names as neutral, '
+         'hence unique_id is invariant under sequence, signature, final script sig/witness, script, derivation and proof updates (C08_uid_depends, C08_uid_invariant, '
+         'C08_uid_known_class = []). Model and crate are run on the same PSETs and transactions on every check.',
  'design_ref': 'DESIGN.md section 6, C08',
  'note': 'Trusted: Coq kernel; translator anchors (match arms of locktime(), resets in unique_id(), body of is_pegin()); hand-written field-level model of '
          'from_tx/extract_tx; txid abstract; BIP370 transcription; harness listing code.',
